@@ -94,6 +94,13 @@ def guarded(fn):
         if _world.CURRENT is not None:
             _world.CURRENT.note_raise()
         return failure(e)
+    except BaseException as e:
+        from zcsim import world as _world
+        if not isinstance(e, _world.SimAbort):
+            raise
+        if _world.CURRENT is not None:
+            _world.CURRENT.note_raise()
+        return failure(e)
 
 
 def load_schema_text(xml, url=None, loader=None):
